@@ -816,6 +816,14 @@ def replaceNonesWithNonsense(
             realType = float
             defaultValue = NONE_MAP[realType]
 
+        # The first entry is an integer, but a later one is real (7, None, 2.5; a row of ints before
+        # a row of floats): store reals, as numpy does for such a column without Nones.
+        if np.issubdtype(realType, np.integer) and any(
+            np.asarray(d).dtype.kind == "f" for d in data if d is not None
+        ):
+            realType = float
+            defaultValue = np.full(np.shape(defaultValue), NONE_MAP[realType])[()]
+
         if isinstance(val, np.ndarray):
             data = np.array([d if d is not None else defaultValue for d in data])
         else:
